@@ -242,6 +242,7 @@ func Reset() {
 	clockReset()
 	chanReset()
 	wgReset()
+	condReset()
 }
 
 //go:norace
